@@ -112,30 +112,33 @@ def sensitivity(args):
             missed.append(sid)
             continue
         try:
+            seeds = [x for x in (args.seeds or "").split(",") if x] or [os.environ.get("VERIF_SEED") or "1"]
             for chk in meta.get("caught_by", []):
-                env = dict(os.environ)
-                env["VERIF_REPO"] = d
-                env["VERIF_REPO_SRC"] = os.path.join(d, "src")
-                t0 = time.time()
-                p = subprocess.run([CHECK, chk, "--tier", "quick", "--no-evidence", "--no-shrink"], env=env,
-                                   capture_output=True, text=True, timeout=3600, check=False)
-                hit = p.returncode == 1 and "VIOLATION property=" in p.stdout
-                oracle = ""
-                for ln in p.stdout.splitlines():
-                    if "violation: oracle=" in ln:
-                        oracle = ln.split("violation: ", 1)[1]
-                        break
-                rows.append((sid, chk, hit, oracle, round(time.time() - t0, 1)))
-                print(f"[sensitivity] {sid} vs {chk}: {'caught' if hit else 'MISSED (rc=%d)' % p.returncode} {oracle} ({time.time() - t0:.1f}s)", flush=True)
-                if not hit:
-                    missed.append(f"{sid}/{chk}")
+                for seed in seeds:
+                    env = dict(os.environ)
+                    env["VERIF_REPO"] = d
+                    env["VERIF_REPO_SRC"] = os.path.join(d, "src")
+                    env["VERIF_SEED"] = str(seed)
+                    t0 = time.time()
+                    p = subprocess.run([CHECK, chk, "--tier", "quick", "--no-evidence", "--no-shrink"], env=env,
+                                       capture_output=True, text=True, timeout=3600, check=False)
+                    hit = p.returncode == 1 and "VIOLATION property=" in p.stdout
+                    oracle = ""
+                    for ln in p.stdout.splitlines():
+                        if "violation: oracle=" in ln:
+                            oracle = ln.split("violation: ", 1)[1]
+                            break
+                    rows.append((sid, chk, hit, oracle, round(time.time() - t0, 1), int(seed)))
+                    print(f"[sensitivity] {sid} vs {chk} seed={seed}: {'caught' if hit else 'MISSED (rc=%d)' % p.returncode} {oracle} ({time.time() - t0:.1f}s)", flush=True)
+                    if not hit:
+                        missed.append(f"{sid}/{chk}/seed{seed}")
         finally:
             shutil.rmtree(d, ignore_errors=True)
             for f in glob.glob(os.path.join(VERIF, "replays", "*.json")):
                 os.unlink(f)
     out = os.path.join(VERIF, "evidence", "selftest-sensitivity.json")
     with open(out, "w") as fh:
-        json.dump({"rows": [dict(zip(("seeded", "check", "caught", "oracle", "seconds"), r)) for r in rows], "missed": missed}, fh, indent=1)
+        json.dump({"rows": [dict(zip(("seeded", "check", "caught", "oracle", "seconds", "verif_seed"), r)) for r in rows], "missed": missed}, fh, indent=1)
         fh.write("\n")
     print(f"[sensitivity] {len(rows) - len(missed)} of {len(rows)} caught; missed: {missed}")
     return 0 if not missed else 2
